@@ -1,0 +1,8 @@
+//go:build !verif
+
+package rueidis
+
+// vhook is a no-op unless the package is built with the "verif" tag (see verif_on.go).
+func vhook(point string, obj any, a, b int) {}
+
+func vhookq(point string, r *ring, n *node) {}
